@@ -1,10 +1,13 @@
 package gen
 
 import (
+	"bytes"
 	"encoding/binary"
+	"fmt"
 
 	"pgregory.net/rapid"
 
+	"verifharness/ref/cms"
 	"verifharness/ref/der"
 	"verifharness/ref/pehash"
 )
@@ -315,4 +318,87 @@ func structuralDER(t *rapid.T, b []byte) ([]byte, string) {
 		}
 		return root.Encode(), "der:children_edit"
 	}
+}
+
+// BulkCMS blows one of the repeated collections of a SignedData up to tens of thousands of elements with distinct
+// keys (signed or unsigned attributes with distinct types, digest algorithms with distinct OIDs, copies of the signer
+// with distinct serials, copies of the certificate): the blob stays well-formed DER of about 0.1..1.5 MB. A decoder
+// that is linear in the input takes milliseconds for it; one that compares every element with every other does not
+// finish in time.
+func BulkCMS(t *rapid.T, base []byte) ([]byte, string) {
+	parsed, err := der.ParseOne(base, der.Options{})
+	if err != nil {
+		return nil, ""
+	}
+	root := parsed.Clone()
+	sd, err := cms.Locate(root)
+	if err != nil || len(sd.Signers) == 0 {
+		return nil, ""
+	}
+	s := sd.Signers[0]
+	n := rapid.SampledFrom([]int{3000, 60000, 150000}).Draw(t, "bulkn")
+	arcs := func(i int) *der.Node { return der.OID(1, 2, 840, 113549, 1, 9, 16, 2, uint64(1000+i)) }
+	switch rapid.IntRange(0, 4).Draw(t, "bulkwhat") {
+	case 0:
+		if s.Attrs == nil {
+			return nil, ""
+		}
+		for i := 0; i < n; i++ {
+			s.Attrs.Children = append(s.Attrs.Children, cms.Attr([]uint64{1, 2, 840, 113549, 1, 9, 16, 2, uint64(1000 + i)}, der.Octets([]byte{byte(i)})))
+		}
+		s.Attrs.Opaque, s.Attrs.Content = false, nil
+		return root.Encode(), fmt.Sprintf("bulk:%d_signed_attributes", n)
+	case 1:
+		var un []*der.Node
+		for i := 0; i < n; i++ {
+			un = append(un, cms.Attr([]uint64{1, 2, 840, 113549, 1, 9, 16, 2, uint64(1000 + i)}, der.Octets([]byte{byte(i)})))
+		}
+		if s.UnAttrs != nil {
+			s.UnAttrs.Children = append(s.UnAttrs.Children, un...)
+			s.UnAttrs.Opaque, s.UnAttrs.Content = false, nil
+		} else {
+			s.Node.Children = append(s.Node.Children, &der.Node{Class: der.ClassContext, Constructed: true, Tag: 1, Children: un})
+		}
+		return root.Encode(), fmt.Sprintf("bulk:%d_unsigned_attributes", n)
+	case 2:
+		for i := 0; i < n; i++ {
+			sd.DigestAlgs.Children = append(sd.DigestAlgs.Children, der.Seq(arcs(i), der.Null()))
+		}
+		return root.Encode(), fmt.Sprintf("bulk:%d_digest_algorithms", n)
+	case 3:
+		if s.Serial == nil {
+			return nil, ""
+		}
+		m := n / 40 // a signer info is a few hundred bytes
+		for i := 0; i < m; i++ {
+			c := s.Node.Clone()
+			if cs, err := cmsSigner(c); err == nil && cs.Serial != nil {
+				cs.Serial.Content = []byte{0x01, byte(i >> 16), byte(i >> 8), byte(i)}
+			}
+			sd.SignerSet.Children = append(sd.SignerSet.Children, c)
+		}
+		return root.Encode(), fmt.Sprintf("bulk:%d_signer_infos", m)
+	default:
+		if sd.Certs == nil || len(sd.Certs.RawValue()) == 0 {
+			return nil, ""
+		}
+		one := append([]byte{}, sd.Certs.Value()...)
+		m := n / 60
+		if len(one)*m > 2<<20 {
+			m = (2 << 20) / len(one)
+		}
+		sd.Certs.Opaque, sd.Certs.Children = true, nil
+		sd.Certs.Content = bytes.Repeat(one, m+1)
+		return root.Encode(), fmt.Sprintf("bulk:%d_certificates", m+1)
+	}
+}
+
+// cmsSigner locates the fields of a cloned SignerInfo node.
+func cmsSigner(n *der.Node) (*cms.Signer, error) {
+	wrap := der.Seq(der.SmallInt(1), der.Set(), der.Seq(der.OID(cms.OIDData...)), der.Set(n))
+	sd, err := cms.Locate(wrap)
+	if err != nil || len(sd.Signers) == 0 {
+		return nil, fmt.Errorf("no signer")
+	}
+	return sd.Signers[0], nil
 }
